@@ -1626,6 +1626,11 @@ func c16Witnesses() []c16Named2 {
 			"defs.json": c16_jm("components", c16_jm("links", c16_jm("N9", c16_jm("description", "l10", "operationId", "opx"))),
 				"paths", c16_jm("/p", c16_jm("post", c16_jm("responses", c16_jm("200", jref("res6.json")))))),
 			"res6.json": c16_jm("description", "r7", "links", c16_jm("l", jref("openapi.json#/components/links/L8")))}},
+		{"loader-unresolved-external-text-left", "openapi.json", map[string]any{
+			"openapi.json": c16RootDoc(c16_jm("examples", c16_jm("L20", jref("defs.json#/components/examples/N21"))), c16_jm("/x", jref("defs.json#/paths/~1p"))),
+			"defs.json": c16_jm("components", c16_jm("examples", c16_jm("N21", c16_jm("value", 22))),
+				"paths", c16_jm("/p", c16_jm("post", c16_jm("parameters", []any{jref("sub/par.json")}, "responses", c16_jm("200", c16_jm("description", "r")))))),
+			"sub/par.json": c16_jm("name", "p", "in", "query", "schema", c16_jm("type", "integer"), "examples", c16_jm("e", jref("../openapi.json#/components/examples/L20")))}},
 		{"callback-cycle", "openapi.json", map[string]any{
 			"openapi.json": c16RootDoc(c16_jm("callbacks", c16_jm("cb", c16_jm("{$request.body#/u}", c16_jm("post", c16_jm("responses", c16_jm("200", c16_jm("description", "r")), "callbacks", c16_jm("again", jref("#/components/callbacks/cb"))))))), nil)}},
 	}
